@@ -11,6 +11,10 @@
       group_id) with F the aggregation the name promises, i.e. out[i] = F{col[j] : gid[j] = gid[i]},
       identical for every member; or TypeError exactly for the dtype classes outside the
       documented ones
+  J   join_numpy: abstract execution of the real function (each mode of its two guards) records the
+      guard terms and the returned term; z3 proves from the numpy contracts (argmax = first True
+      column, pad, take) that a non-negative key yields the target of the unique matching row and a
+      negative key the default -- for any number of rows
   N   the unimplemented *_by_p_id variants raise NotImplementedError (and C08 proves them unreachable)
   S   precedence automatic < built-in < user, automatic sum only without explicit spec and with an
       existing base column: exhaustive over the presence patterns on the real
@@ -340,10 +344,92 @@ def bounded(rep, tier):
         if raised != should and len(bad) < 5:
             bad.append({"kernel": "join_numpy", "foreign_key": fk, "primary_key": pk, "got": "raised" if raised else "returned", "expected": "ValueError" if should else "a result"})
     rep.bounded["kernels_vs_definition"] = {"evaluations": n_eval, "distinct_nontrivial": distinct, "rule": f"all group-id vectors over {{0,4,9}} and all columns over 3-value domains for <= {nmax} rows (sparse, unsorted ids) for the seven grouped kernels; datetime max/min on 16 groupings; sum_by_p_id and join_numpy for all pointer vectors over (-1,-5,existing ids) x row orders; distinct = id/pointer vectors", "failures": bad[:5], "exhaustive": True}
-    rep.functions.add("src/_gettsim/shared.py:272 join_numpy (bounded exhaustive, not proved)")
+    rep.functions.add("src/_gettsim/shared.py:272 join_numpy (also bounded exhaustive)")
     for b in bad:
         rep.violation(f"{b['kernel']}:definition-mismatch", f"{b['kernel']} returns {b.get('got')} on {{k: v for k, v in b.items() if k not in ('got', 'expected')}}, definition gives {b.get('expected')}".replace("{k: v for k, v in b.items() if k not in ('got', 'expected')}", str({k: v for k, v in b.items() if k not in ("got", "expected", "kernel")})), b, True)
     return {b["kernel"].split("[")[0] for b in bad}
+
+
+def join_proof(rep):
+    """J: join_numpy by abstract execution + z3 over the numpy contracts (unbounded N)"""
+    import z3
+
+    from _gettsim import shared
+    from vt import absnp
+
+    where = "src/_gettsim/shared.py:272-328 (join_numpy)"
+    rep.functions.add("src/_gettsim/shared.py:272 join_numpy")
+    T = absnp.T
+    fk, pk, tg = T("fk"), T("pk"), T("target")
+    saved = shared.numpy
+    results = {}
+    try:
+        shared.numpy = absnp.NP()
+        for mode_name, mode in {
+            "ok": {},
+            "duplicate primary keys": {(lambda t: t.op == "unique"): 6},
+            "dangling foreign key": {(lambda t: t.op == "mask_select"): 1},
+        }.items():
+            absnp.LEN.mode = mode
+            absnp.LEN.asked = []
+            try:
+                out = shared.join_numpy(fk, pk, tg, "DEFAULT")
+                results[mode_name] = ("returned", out, list(absnp.LEN.asked))
+            except ValueError:
+                results[mode_name] = ("ValueError", None, list(absnp.LEN.asked))
+            except Exception as ex:  # noqa: BLE001
+                results[mode_name] = (type(ex).__name__, None, list(absnp.LEN.asked))
+    finally:
+        shared.numpy = saved
+        absnp.LEN.mode = {}
+    # J1: the path conditions are the documented ones
+    asked = [t.key() for t in results["ok"][2]]
+    want_mask = ("mask_select", ("fk",), ("and", ("ge", ("fk",), 0), ("not", ("isin", ("fk",), ("pk",)))))
+    j1 = results["ok"][0] == "returned" and ("unique", ("pk",)) in asked and want_mask in asked
+    rep.ob("J1 join_numpy decides on len(unique(pk)) vs len(pk) and on len(fk[(fk >= 0) & ~isin(fk, pk)])", "discharged" if j1 else "refuted", "abstract-exec", 0, where, "kernel-term", str(asked)[:200])
+    j2 = results["duplicate primary keys"][0] == "ValueError" and results["dangling foreign key"][0] == "ValueError"
+    rep.ob("J2 join_numpy raises ValueError when the primary key has duplicates / a non-negative foreign key is not a primary key", "discharged" if j2 else "refuted", "abstract-exec", 0, where, "exception-post", str({k: v[0] for k, v in results.items()}))
+    # J3: the returned term
+    want = ("take", ("pad", ("target",), (0, 1), "constant", "DEFAULT"), ("argmax", ("pad", ("eq", ("column", ("fk",)), ("pk",)), ((0, 0), (0, 1)), "constant", True), 1))
+    got = results["ok"][1].key() if results["ok"][1] is not None else None
+    j3 = got == want
+    rep.ob("J3 join_numpy returns take(pad(target, default), argmax(pad(fk[:, None] == pk, True), axis=1))", "discharged" if j3 else "refuted", "abstract-exec", 0, where, "kernel-term", str(got)[:300])
+    # J4: meaning of that term by the numpy contracts, for any number of rows (z3)
+    N = z3.Int("N")
+    FK, PK = z3.Array("fk", z3.IntSort(), z3.IntSort()), z3.Array("pk", z3.IntSort(), z3.IntSort())
+    TG = z3.Array("target", z3.IntSort(), z3.RealSort())
+    DEF = z3.Real("default")
+    idx = z3.Array("idx", z3.IntSort(), z3.IntSort())
+    out = z3.Array("out", z3.IntSort(), z3.RealSort())
+    rowof = z3.Function("rowof", z3.IntSort(), z3.IntSort())
+    i, k, j = z3.Ints("i k j")
+
+    def P(i_, k_):  # padded match matrix
+        return z3.Or(z3.And(0 <= k_, k_ < N, FK[i_] == PK[k_]), k_ == N)
+
+    contracts = [
+        # argmax(axis=1) of a boolean matrix: the first column holding True
+        z3.ForAll([i], z3.Implies(z3.And(0 <= i, i < N), z3.And(0 <= idx[i], idx[i] <= N, P(i, idx[i]), z3.ForAll([k], z3.Implies(z3.And(0 <= k, k < idx[i]), z3.Not(P(i, k))))))),
+        # take from the padded target
+        z3.ForAll([i], z3.Implies(z3.And(0 <= i, i < N), out[i] == z3.If(idx[i] < N, TG[idx[i]], DEF))),
+    ]
+    pre = [
+        N >= 0,
+        z3.ForAll([i, j], z3.Implies(z3.And(0 <= i, i < N, 0 <= j, j < N, PK[i] == PK[j]), i == j)),
+        z3.ForAll([i], z3.Implies(z3.And(0 <= i, i < N), PK[i] >= 0)),
+        z3.ForAll([i], z3.Implies(z3.And(0 <= i, i < N, FK[i] >= 0), z3.And(0 <= rowof(FK[i]), rowof(FK[i]) < N, PK[rowof(FK[i])] == FK[i]))),
+    ]
+    goals = {
+        "J4a a non-negative foreign key yields the target of THE row whose primary key equals it": z3.ForAll([i], z3.Implies(z3.And(0 <= i, i < N, FK[i] >= 0), out[i] == TG[rowof(FK[i])])),
+        "J4b a negative foreign key yields the default": z3.ForAll([i], z3.Implies(z3.And(0 <= i, i < N, FK[i] < 0), out[i] == DEF)),
+    }
+    for name, goal in goals.items():
+        r = solve.check([*pre, *contracts, z3.Not(goal)], 30)
+        rep.ob(name, {"unsat": "discharged", "sat": "refuted"}.get(r.status, "unknown"), r.backend, r.seconds, where, "vc")
+    r = solve.check([*pre, *contracts], 5, use_cvc5=False)
+    if r.status == "unsat":
+        rep.crashed = "vacuous hypotheses (join_numpy)"
+    return j1 and j2 and j3
 
 
 def replay(path):
@@ -373,7 +459,7 @@ def run(tier="quick", seed=0, jobs=16):
     rep.assumptions = [ASSUMPTIONS["A1"] + " (summation order within a group is ignored)", ASSUMPTIONS["T"],
                        "dtype classes bool / int64 / float64 / datetime64[ns] / object stand for all dtypes of their numpy kind",
                        "VALID for sum_by_p_id: store ids unique, every non-negative pointer is an existing id",
-                       "join_numpy and the datetime branches of grouped_max/min are checked bounded-exhaustively only"]
+                       "the datetime branches of grouped_max/min are checked bounded-exhaustively only; join_numpy is proved modulo the numpy contracts of unique / isin / pad / argmax / take and additionally run bounded-exhaustively"]
     rep.trusted = ["npg.aggregate(idx, a, func, fill_value): out[g] = func{a[j] : idx[j] = g} (validated against the real library on all small arrays, bounded run B)",
                    "numpy fancy indexing a[idx][i] = a[idx[i]]; ndarray.astype(int) maps False/True to 0/1", "z3 5.1.0", "vt/loopvc.py model of dict / array updates"]
     # P
@@ -392,6 +478,7 @@ def run(tier="quick", seed=0, jobs=16):
         rep.ob("P sum_by_p_id: contract binds to the code", "unsupported", "E2", 0, "src/_gettsim/aggregation_numpy.py:120", "binding", str(ex))
         lost = "unsupported"
     abstract_group_kernels(rep)
+    join_ok = join_proof(rep)
     not_implemented(rep)
     precedence(rep)
     failing = bounded(rep, tier)
